@@ -157,14 +157,17 @@ func perNodeEvents(hh *h.Hist, g h.GroupSpec, cap int, taintValues []string) []h
 	return ev
 }
 
-var c01TaintValuesShort = []string{"now-1q", "now-5q", "now+10q", "abc", "0x5f5e100"}
+// "13800000000" is a readable time four centuries ahead; "nowms" is the current time in milliseconds
+// (a readable number, some 57 000 years ahead when read as seconds): neither is ever past a grace period
+var c01TaintValuesShort = []string{"now-1q", "now-5q", "now+10q", "abc", "0x5f5e100", "13800000000"}
 
-var c01TaintValues = []string{"now+0q", "now-1q", "now-3q", "now-5q", "now+10q", "abc", "", "12.5", "-5", "0x5f5e100", "1_000"}
+var c01TaintValues = []string{"now+0q", "now-1q", "now-3q", "now-5q", "now+10q", "abc", "", "12.5", "-5", "0x5f5e100", "1_000", "13800000000", "nowms"}
 
 // C01Scenarios returns the scenarios of the C01 check for a tier.
 func C01Scenarios(tier string) []*h.Scenario {
+	groupName := "g1"
 	mk := func(name string, minNodes int, init func(hh *h.Hist, a *sim.ASG, g h.GroupSpec), faults bool) *h.Scenario {
-		g := StdGroup("g1")
+		g := StdGroup(groupName)
 		g.Opts.MinNodes = minNodes
 		s := &h.Scenario{
 			Name:             name,
@@ -280,8 +283,13 @@ func C01Scenarios(tier string) []*h.Scenario {
 		}
 		return append(ev, evASGEdit(gTight.ASG.Name, 0, 8), evASGEdit(gTight.ASG.Name, 4, 8), evRestart())
 	}
+	// a label-selected group whose name differs from the special name "default" only in capitalisation
+	groupName = "Default"
+	capital := mk("c01.mid.group-named-Default", 1, mid, false)
+	groupName = "g1"
+	capital.Slots = 6
 	// the thorough tier spends its third deviation on the core worlds; the add-on worlds stay at two
-	for _, s := range []*h.Scenario{overmax, offgrid, two, tight} {
+	for _, s := range []*h.Scenario{overmax, offgrid, two, tight, capital} {
 		s.BoundCap = 2
 	}
 	return []*h.Scenario{
@@ -294,5 +302,6 @@ func C01Scenarios(tier string) []*h.Scenario {
 		offgrid,
 		two,
 		tight,
+		capital,
 	}
 }
